@@ -67,6 +67,7 @@ func launch(name string) {
 	} else {
 		binary.Write(os.Stdout, binary.LittleEndian, uint32(cmd.Process.Pid))
 	}
+	verifPause()
 
 	finished := make(chan struct{})
 	go func() {
